@@ -589,6 +589,7 @@ def Bookkeeping.Valid : Bookkeeping → Prop
   | .rootHdel cp _ => Gen.checkpointKey <+: cp
   | .rootDel cp => Gen.checkpointKey <+: cp
   | .frontierDel cp => Gen.checkpointKey <+: cp
+  | .nsDel cp keys => keys ≠ [] ∧ ∀ k ∈ keys, PlainNsKey cp k
   | _ => True
 
 /-- **Stand-alone bookkeeping traffic is skipped** by the opposite link: every
@@ -647,5 +648,17 @@ theorem bookkeeping_cmd_quiet (cfg : PCfg) (hf : FOK cfg.filter) (bk : Bookkeepi
     intro k hk
     have : k = Gen.frontierKey cp := by simpa [Bookkeeping.toCmd] using hk
     rw [this]; exact Or.inr (List.IsPrefix.trans hv (List.prefix_append _ _))
+  | markerDel cp tag =>
+    refine del_quiet cfg hf _ (Or.inl (by show lower wDel = wDel; decide)) (by simp [Bookkeeping.toCmd]) ?_ pst hi
+    intro k hk
+    have : k = Gen.markerKey cp tag := by simpa [Bookkeeping.toCmd] using hk
+    rw [this]; exact Or.inl (markerKey_ns _ (markerKey_isMarker cp tag))
+  | nsDel cp keys =>
+    refine del_quiet cfg hf _ (Or.inl (by show lower wDel = wDel; decide)) hv.1 ?_ pst hi
+    intro k hk
+    obtain ⟨tag, h | h | ⟨seq, h⟩⟩ := hv.2 k hk
+    · rw [h]; exact Or.inl (latestKey_ns cp tag)
+    · rw [h]; exact Or.inl (commitIndexKey_ns cp tag)
+    · rw [h]; exact Or.inl (commitRecordKey_ns cp tag seq)
 
 end GunYu.Bisync
